@@ -114,7 +114,7 @@ var specs = map[string]spec{
 	"os/pacman":             one("var/lib/pacman/local/pkg-1.0-1/desc"),
 	"os/portage":            one("var/db/pkg/cat/pkg-1.0/PF"),
 	// go-rpmdb sniffs the database format from the content, not from the name.
-	"os/rpm":    {RealDir: true, WatchdogS: 420, Cands: []cand{{Path: "var/lib/rpm/Packages"}}},
+	"os/rpm":    {RealDir: true, Cands: []cand{{Path: "var/lib/rpm/Packages"}}},
 	"os/snap":   one("snap/core/1/meta/snap.yaml"),
 	"sbom/cdx":  many("sbom/a.cdx.json", "sbom/a.cdx.xml"),
 	"sbom/spdx": many("sbom/a.spdx.json", "sbom/a.spdx", "sbom/a.spdx.yml", "sbom/a.spdx.rdf"),
